@@ -7,59 +7,93 @@ use corrlib::pipe::*;
 use corrlib::*;
 use serde_json::json;
 use std::time::Duration;
+mod qfull;
 mod runall;
+mod runpair;
 
 pub fn run(rep: &mut Report) {
-    rep.rule = "input sets of 2-10 overlapping .info/.xml files given as plain files or a directory, \
-                --threads in {1,2,3,4,8}, shuffled argument order, seeded yield/sleep perturbation at every \
-                hook point; non-trivial = at least two inputs share a source file and threads >= 2; \
+    rep.rule = "input sets of 2-10 overlapping .info/.xml artifacts packed at random into 2-3 directories (with sub-directories), \
+                1-2 zip archives and plain-file arguments (now and then the same relative name in several archives), in a third of the \
+                sets an LLVM gcno/gcda pair in a directory or zip, in a third a source tree given as -s whose files the tracefiles name \
+                under ./ /./ // spellings; --threads in {1,2,3,4,8}, the path arguments in a different (really permuted) order for every run, \
+                seeded yield/sleep perturbation at every hook point; non-trivial = at least two artifacts share a source file and threads >= 2; \
                 distinct = distinct (input set, threads, order, perturbation seed)"
         .to_string();
+    // first: the stream whose REPORT oracle sees a producer that merges artifacts into one work item
+    qfull::run(rep);
     let mut rng = Rng::new(rep.seed ^ 0xC02);
     let n_sets = rep.budget(40, 25);
     let runs_per_set = 5;
     let mut reqs: Vec<String> = vec![];
     let mut ctx: Vec<serde_json::Value> = vec![];
+    // a run that does not terminate may take 30 s once, 5 s afterwards; after 3 of them no further
+    // run with an injected death is started
+    let mut hb = HangBudget::new(30, 5, 3);
+    let extra0: Vec<String> = vec!["-t".into(), "lcov".into(), "--branch".into(), "--no-demangle".into()];
     for set in 0..n_sets {
         let k = rng.range(2, 10) as usize;
-        let inputs = gen_inputs(&mut rng, k);
         let dir = rep.workdir.join(format!("set{}", set));
-        let as_dir = rng.chance(1, 3);
-        let data_dir = if as_dir { dir.join("data") } else { dir.clone() };
-        write_inputs(&data_dir, &inputs);
-        let refs: Vec<&Input> = inputs.iter().collect();
-        let want = show_map(&aggregate(&refs));
+        let layout = build_layout(&mut rng, &dir, k);
+        layout.materialise(&dir);
+        let inputs = &layout.inputs;
+        let n_items = layout.n_items;
+        let want = show_map(&layout.expected());
         let shares = {
             let mut seen = std::collections::HashSet::new();
             inputs
                 .iter()
-                .flat_map(|i| i.parsed.iter().map(|p| p.0.clone()))
+                .flat_map(|i| i.parsed.iter().map(|p| normalise_spelling(&p.0)))
                 .any(|k| !seen.insert(k))
+        };
+        let mut extra = extra0.clone();
+        extra.extend(layout.extra.iter().cloned());
+        let lay_json = layout.to_json();
+        let mut last_args: Vec<String> = layout.args_canonical.clone();
+        let mut next_args = |rng: &mut Rng| -> Vec<String> {
+            let mut a = last_args.clone();
+            if a.len() >= 2 {
+                for _ in 0..8 {
+                    rng.shuffle(&mut a);
+                    if a != last_args {
+                        break;
+                    }
+                }
+                if a == last_args {
+                    a.rotate_left(1);
+                }
+            }
+            last_args = a.clone();
+            a
         };
         // a worker that dies while holding an input: whatever the schedule, success (exit 0) is
         // never reported for a report that lacks an input
         for _ in 0..2 {
             let threads = *rng.pick(&[1usize, 2, 3, 4, 8]);
-            let victim = rng.below(k as u64) as usize;
-            let mut args: Vec<String> = if as_dir { vec!["data".to_string()] } else { inputs.iter().map(|i| i.name.clone()).collect() };
-            rng.shuffle(&mut args);
+            let victim = rng.below(inputs.len() as u64) as usize;
+            let args = next_args(&mut rng);
             let perturb = if rng.chance(1, 2) { None } else { Some(rng.next() % 100000) };
+            if hb.exhausted() {
+                hb.skip();
+                rep.count("lost_input.skipped_after_hangs");
+                continue;
+            }
             let out = run_grcov(&RunCfg {
                 dir: &dir,
                 args: args.clone(),
                 threads,
                 perturb,
                 fault: Some(format!("panic:{}", inputs[victim].id)),
-                limit: Duration::from_secs(60),
-                extra: vec!["-t".into(), "lcov".into(), "--branch".into(), "--no-demangle".into()],
+                limit: hb.limit(),
+                extra: extra.clone(),
             });
+            hb.note(&out);
             rep.case(&format!("{} {} {:?} {:?} dies {}", set, threads, args, perturb, victim), threads >= 2);
             rep.count("lost_input.runs");
             rep.count(&format!("lost_input.exit={}", match out.exit { Some(0) => "0", Some(_) => "nonzero", None => "timeout" }));
             let case = json!({"op": "pipeline-lost-input", "set": set, "threads": threads, "args": args, "perturb": perturb, "dies_on": inputs[victim].name,
-                "inputs": inputs.iter().map(|i| json!({"name": i.name, "hex": hex(&i.bytes)})).collect::<Vec<_>>(), "as_dir": as_dir});
+                "layout": lay_json});
             match out.exit {
-                None => rep.fail("oracle", None, "grcov did not terminate within 60 s after a worker died".into(), case),
+                None => rep.fail("oracle", None, format!("grcov did not terminate within {} s after a worker died", hb.first.as_secs()), case),
                 Some(0) => {
                     let got = decode_lcov_report(&out.stdout).map(|m| show_map(&m)).unwrap_or_default();
                     if got != want {
@@ -72,12 +106,7 @@ pub fn run(rep: &mut Report) {
         }
         for r in 0..runs_per_set {
             let threads = *rng.pick(&[1usize, 2, 2, 3, 4, 8]);
-            let mut args: Vec<String> = if as_dir {
-                vec!["data".to_string()]
-            } else {
-                inputs.iter().map(|i| i.name.clone()).collect()
-            };
-            rng.shuffle(&mut args);
+            let args = next_args(&mut rng);
             let perturb = if r == 0 { None } else { Some(rng.next() % 100000) };
             let cfg = RunCfg {
                 dir: &dir,
@@ -85,23 +114,27 @@ pub fn run(rep: &mut Report) {
                 threads,
                 perturb,
                 fault: None,
-                limit: Duration::from_secs(60),
-                extra: vec!["-t".into(), "lcov".into(), "--branch".into(), "--no-demangle".into()],
+                limit: hb.limit(),
+                extra: extra.clone(),
             };
             let out = run_grcov(&cfg);
+            hb.note(&out);
             let case = json!({"op": "pipeline", "set": set, "threads": threads, "args": args,
-                "perturb": perturb, "inputs": inputs.iter().map(|i| json!({"name": i.name, "hex": hex(&i.bytes)})).collect::<Vec<_>>(),
-                "as_dir": as_dir});
+                "perturb": perturb, "layout": lay_json});
             rep.case(
                 &format!("{} {} {:?} {:?}", set, threads, args, perturb),
                 shares && threads >= 2,
             );
             rep.count(&format!("threads={}", threads));
-            rep.count(if as_dir { "layout.dir" } else { "layout.plain" });
+            if r == 0 {
+                rep.count(&format!("layout.{}", layout.shape));
+                rep.count(&format!("layout.args={}", args.len().min(6)));
+            }
+            rep.count(if args != layout.args_canonical { "args.permuted" } else { "args.in_generation_order" });
             // (b) end to end
             match out.exit {
                 None => {
-                    rep.fail("oracle", None, "grcov did not terminate within 60 s on well-formed inputs".into(), case.clone());
+                    rep.fail("oracle", None, format!("grcov did not terminate within {} s on well-formed inputs", cfg.limit.as_secs()), case.clone());
                     continue;
                 }
                 Some(0) => {}
@@ -134,21 +167,22 @@ pub fn run(rep: &mut Report) {
             // every batch goes into the map under exactly one lock / unlock pair
             let cnt = |k: &str| out.log.iter().filter(|e| e.1 == k).count();
             rep.count_n("log.lock_events", cnt("lock") as u64);
-            if cnt("lock") != inputs.len() || cnt("unlock") != inputs.len() || cnt("merged") != inputs.len() {
-                rep.fail("oracle", None, format!("{} inputs merged under {} lock and {} unlock events ({} merged events): a batch must be written under one acquisition of the result-map mutex",
-                    inputs.len(), cnt("lock"), cnt("unlock"), cnt("merged")), case.clone());
+            if cnt("lock") != n_items || cnt("unlock") != n_items || cnt("merged") != n_items {
+                rep.fail("oracle", None, format!("{} artifacts merged under {} lock and {} unlock events ({} merged events): every discovered artifact is one work item and a batch must be written under one acquisition of the result-map mutex",
+                    n_items, cnt("lock"), cnt("unlock"), cnt("merged")), case.clone());
             }
-            match log_to_request(&out, threads, false, inputs.len(), &[]) {
+            match log_to_request(&out, threads, false, n_items, &[]) {
                 Ok(req) => {
                     if reqs.is_empty() {
                         rep.sample(json!({"threads": threads, "args": args, "request": req}));
                     }
                     reqs.push(req);
-                    ctx.push(json!({"case": case, "log": out.log.iter().map(|e| format!("{} {} {}", e.0, e.1, e.2)).collect::<Vec<_>>(), "n_inputs": inputs.len()}));
+                    ctx.push(json!({"case": case, "log": out.log.iter().map(|e| format!("{} {} {}", e.0, e.1, e.2)).collect::<Vec<_>>(), "n_inputs": n_items}));
                 }
                 Err(e) => rep.fail("oracle", None, format!("event log is inconsistent: {}", e), case.clone()),
             }
         }
+        let _ = std::fs::remove_dir_all(&dir);
     }
     let answers = run_model(&reqs, &rep.workdir, "pipe");
     for (i, a) in answers.iter().enumerate() {
@@ -168,6 +202,7 @@ pub fn run(rep: &mut Report) {
     rep.count_n("traces_validated", reqs.len() as u64);
     lock_negatives(rep, &reqs);
     capacity_cases(rep, &mut rng);
+    runpair::run(rep);
     runall::run(rep);
 }
 
@@ -185,6 +220,30 @@ fn lock_negatives(rep: &mut Report, reqs: &[String]) {
     // the shortest logs first: refusing a log means exhausting the search for a realisation
     let mut sorted: Vec<&String> = reqs.iter().collect();
     sorted.sort_by_key(|r| r.len());
+    // "overlap" needs a log in which two DIFFERENT workers hold the mutex one after the other: take
+    // the three shortest such logs (the six shortest logs overall are single-worker runs)
+    let mut n_overlap = 0;
+    for req in &sorted {
+        if n_overlap >= 3 {
+            break;
+        }
+        let toks: Vec<&str> = req.split(' ').collect();
+        let Some(xi) = toks.iter().position(|t| t.starts_with("X:")) else { continue };
+        let x: Vec<&str> = toks[xi][2..].split(',').collect();
+        let ids: std::collections::BTreeSet<&str> = x.iter().map(|e| e.trim_end_matches(|c| c == 'l' || c == 'u')).collect();
+        if ids.len() < 2 {
+            continue;
+        }
+        let Some(i) = (0..x.len().saturating_sub(3)).step_by(2).find(|&i| x[i].trim_end_matches('l') != x[i + 2].trim_end_matches('l')) else { continue };
+        let mut y: Vec<String> = x.iter().map(|s| s.to_string()).collect();
+        y.swap(i + 1, i + 2);
+        let new = format!("X:{}", y.join(","));
+        tests.push(("overlap".into(), toks.iter().enumerate().map(|(j, t)| if j == xi { new.clone() } else { t.to_string() }).collect::<Vec<_>>().join(" ")));
+        n_overlap += 1;
+    }
+    if n_overlap == 0 {
+        rep.notes.push("lock-negative overlap: no log with two workers holding the mutex in turn".into());
+    }
     for req in sorted {
         if used >= 6 {
             break;
@@ -310,35 +369,34 @@ fn capacity_cases(rep: &mut Report, rng: &mut Rng) {
 
 pub fn replay(rep: &mut Report, case: &serde_json::Value) {
     if runall::replay(rep, case) { return; }
-    // re-run the recorded input set / thread count / order / perturbation seed
+    if runpair::replay(rep, case) { return; }
+    if qfull::replay(rep, case) { return; }
+    // re-run the recorded layout / thread count / order / perturbation seed
     let c = if case.get("case").is_some() { &case["case"] } else { case };
+    let c = if c.get("context").is_some() { &c["context"]["case"] } else { c };
     let c = if c.get("case").is_some() { &c["case"] } else { c };
+    let Some(lay) = c.get("layout") else {
+        rep.notes.push("replay: the case has no layout".into());
+        return;
+    };
     let dir = rep.workdir.join("replay");
-    let as_dir = c["as_dir"].as_bool().unwrap_or(false);
-    let data_dir = if as_dir { dir.join("data") } else { dir.clone() };
-    std::fs::create_dir_all(&data_dir).unwrap();
-    let mut inputs = vec![];
-    for i in c["inputs"].as_array().unwrap() {
-        let name = i["name"].as_str().unwrap().to_string();
-        let bytes = unhex(i["hex"].as_str().unwrap());
-        std::fs::write(data_dir.join(&name), &bytes).unwrap();
-        let parsed = if name.ends_with(".xml") {
-            grcov::parse_jacoco_xml_report(std::io::BufReader::new(std::io::Cursor::new(bytes.clone()))).unwrap()
-        } else {
-            grcov::parse_lcov(bytes.clone(), true).unwrap()
-        };
-        inputs.push(Input { name, format: "Info", id: String::new(), bytes, parsed });
+    let _ = std::fs::remove_dir_all(&dir);
+    for f in lay["files"].as_array().unwrap() {
+        let path = dir.join(f[0].as_str().unwrap());
+        std::fs::create_dir_all(path.parent().unwrap()).unwrap();
+        std::fs::write(path, unhex(f[1].as_str().unwrap())).unwrap();
     }
-    let refs: Vec<&Input> = inputs.iter().collect();
-    let want = show_map(&aggregate(&refs));
+    let want = lay["expected"].as_str().unwrap_or("").to_string();
+    let mut extra: Vec<String> = vec!["-t".into(), "lcov".into(), "--branch".into(), "--no-demangle".into()];
+    extra.extend(lay["extra"].as_array().unwrap().iter().map(|a| a.as_str().unwrap().to_string()));
     let cfg = RunCfg {
         dir: &dir,
         args: c["args"].as_array().unwrap().iter().map(|a| a.as_str().unwrap().to_string()).collect(),
         threads: c["threads"].as_u64().unwrap() as usize,
         perturb: c["perturb"].as_u64(),
         fault: None,
-        limit: Duration::from_secs(60),
-        extra: vec!["-t".into(), "lcov".into(), "--branch".into(), "--no-demangle".into()],
+        limit: Duration::from_secs(30),
+        extra,
     };
     for _ in 0..20 {
         let out = run_grcov(&cfg);
